@@ -11,13 +11,14 @@ def instances(tier, seed):
         yield from EI.gen(
             [pol], tier, seed, max_n=3, variants=(0, 1, 2) if th else (0, 1),
             clusters=("c2", "c1c1", "c2|c1") if th else ("c2", "c1c1"),
-            progress=("fresh", "running", "completed", "scheduled", "other_running"),
+            progress=("fresh", "running", "running_long", "completed", "scheduled",
+                      "other_running"),
             deadlines=("loose", "tight") if th else ("loose",))
     if th:
         for pol in ("ILP", "TSG"):
             yield from EI.gen([pol], tier, seed, shapes=("diamond", "chain4", "fork3"),
                               max_n=4, variants=(0,), clusters=("c2",),
-                              progress=("fresh", "running", "completed"),
+                              progress=("fresh", "running", "running_long", "completed"),
                               opt_keys=("rtg", "la"))
 
 
